@@ -73,7 +73,10 @@ func buildMesh(rc *sk.RunCtx, o meshOpts) *meshWorld {
 	mw.notBefore, mw.notAfter = now.Add(-time.Hour), now.Add(1000*time.Hour)
 	mw.ca = newSimCA(cert.Version2, curve, "sim-ca", now.Add(-2*time.Hour), now.Add(2000*time.Hour), nil, nil, nil)
 	mw.useLH = o.allowLighthouse && tp.Chance(1, 2)
-	mw.useRelay = o.allowRelay && tp.Chance(1, 2)
+	mw.useRelay = o.allowRelay && n >= 3 && tp.Chance(2, 3)
+	if mw.useRelay {
+		mw.useLH = true // relays are learned through the lighthouse; node 0 is lighthouse and relay
+	}
 
 	// fault profile (swarm: each kind independently on/off per run)
 	if !o.noFaults {
@@ -120,7 +123,11 @@ func buildMesh(rc *sk.RunCtx, o meshOpts) *meshWorld {
 		if mw.useLH {
 			if i == 0 {
 				spec.lighthouse = true
+				spec.relay = mw.useRelay
 			} else {
+				if mw.useRelay {
+					spec.relays = []string{overlayAddr(0, 0).Addr().String()}
+				}
 				spec.lhHosts = []string{overlayAddr(0, 0).Addr().String()}
 				spec.static[overlayAddr(0, 0).Addr().String()] = []string{underlayAddr(0, 0).String()}
 			}
@@ -145,6 +152,17 @@ func buildMesh(rc *sk.RunCtx, o meshOpts) *meshWorld {
 			return mw
 		}
 		mw.control = append(mw.control, &Control{f: nd.f, l: simLogger})
+	}
+	if mw.useRelay {
+		// topology: some endpoint pairs have no direct underlay path (not a fault: it also holds in the quiet suffix)
+		for i := 1; i < n; i++ {
+			for j := i + 1; j < n; j++ {
+				if tp.Chance(2, 3) {
+					w.blocked[[2]int{i, j}] = true
+					w.blocked[[2]int{j, i}] = true
+				}
+			}
+		}
 	}
 	w.onTun = mw.recordTun
 	rc.Trace("mesh n=%d lh=%v relay=%v curve=%v drop=%d dup=%d reorder=%d long=%d senderr=%d", n, mw.useLH, mw.useRelay, curve,
